@@ -335,7 +335,7 @@ func c16Programs(tier string, seed int64) []c16Program {
 	rng := rand.New(rand.NewSource(seed))
 	reps := 1
 	if tier == "thorough" {
-		reps = 10
+		reps = 3
 	}
 	for rep := 0; rep < reps; rep++ {
 		for _, kind := range backendKinds {
@@ -359,7 +359,7 @@ func c16Programs(tier string, seed int64) []c16Program {
 	}
 	nk := 60
 	if tier == "thorough" {
-		nk = 3000
+		nk = 1200
 	}
 	for i := 0; i < nk; i++ {
 		kind := backendKinds[rng.Intn(3)]
@@ -393,7 +393,7 @@ func init() {
 			"report blocks are counted from the race logs and de-duplicated by library frame pair; a child killed by a runtime fault is a violation; distinct_nontrivial = distinct (instance kind, op set) programs executed",
 		Required:    []string{"programs", "op_pairs.backend", "op_pairs.failover"},
 		Assumptions: []string{"non-detection claim: no report in the programs x repetitions executed; the race detector only sees accesses that were executed", "harness ops share nothing but the instance under test (a report without a library frame fails the check as broken)"},
-		Timeout:     func(string) time.Duration { return 40 * time.Minute },
+		Timeout:     func(string) time.Duration { return 90 * time.Minute },
 		Finalize: func(agg *Result, tier string) []string {
 			if agg.Counters["race.reports.harness_only"] > 0 {
 				return []string{"race report without a github.com/bool64/cache frame: the harness itself races"}
